@@ -83,6 +83,8 @@ def run(prog, chk):
     from props import C01 as _C01
     chk.rule(_C01.retry_amplification, prog, chk)  # a loop whose body refers forward is retried while anything - also inside a nested list - still resolves; N copies of the body resolve exactly when the hand-written copies do
     chk.rule(_C01.retry_baseline_after_attempt, prog, chk)
+    from props import C17 as _C17d
+    chk.rule(_C17d.depth_pairing, prog, chk)  # the body of a loop is processed one level down like the hand-written copies inside their parent: at depth 0 it is taken for the whole document
     from props import geomalg
     n = geomalg.check_sites(prog, chk, "C16")
     chk.floor("A17.site-algebra", n, 5, "loop parameter default case")
